@@ -48,6 +48,19 @@ pub proof fn lemma_iter_step_set<K, V>(m: Map<K, V>, s: Seq<(&K, &V)>, idx: int,
 pub open spec fn is_reorg_tx(trackers: Map<UUID, TrackerRow>, reorged: Set<UUID>, tx: Transaction) -> bool {
     exists|u: UUID| reorged.contains(u) && #[trigger] trackers.contains_key(u) && (tx == trackers[u].dispute_tx || tx == trackers[u].penalty_tx)
 }
+// C04: the node bounced the dispute or the penalty of this tracker (verdicts as memoised by the Carrier for the block)
+pub open spec fn node_rejected(rec: Map<Txid, ConfirmationStatus>, tr: TrackerRow) -> bool {
+    (rec.contains_key(txid_spec(tr.dispute_tx)) && rec[txid_spec(tr.dispute_tx)] is Rejected)
+    || (rec.contains_key(txid_spec(tr.penalty_tx)) && rec[txid_spec(tr.penalty_tx)] is Rejected)
+}
+// C04: some submission of this tracker's dispute or penalty was rejected by the node (over the whole submission log)
+pub open spec fn node_rejected_in_log(calls: Seq<(Transaction, SendReply)>, tr: TrackerRow) -> bool {
+    rejected_call(calls, txid_spec(tr.dispute_tx)) || rejected_call(calls, txid_spec(tr.penalty_tx))
+}
+// `r1` has every verdict of `r0`, unchanged
+pub open spec fn receipts_kept(r0: Map<Txid, ConfirmationStatus>, r1: Map<Txid, ConfirmationStatus>) -> bool {
+    forall|t: Txid| #[trigger] r0.contains_key(t) ==> r1.contains_key(t) && r1[t] == r0[t]
+}
 // `c1` extends `c0` and every appended call carries a transaction satisfying `ok`
 pub open spec fn calls_extend(c0: Seq<(Transaction, SendReply)>, c1: Seq<(Transaction, SendReply)>, ok: spec_fn(Transaction) -> bool) -> bool {
     &&& c1.len() >= c0.len()
